@@ -59,12 +59,32 @@ def conj(*xs):
 class Enc:
     def __init__(self):
         self.vars = set()
+        self.defs = []       # (define-fun ...) lines: shared subterms are named once (terms are DAGs, not trees)
+        self.cache = {}
+        self.keep = []
 
     def truth(self, t, term):
         return '(not (= %s %s))' % (term, bvconst(0, TY[t][1]))
 
     def enc(self, e):
         """-> (ctype, bit-vector term, definedness term)"""
+        key = id(e)
+        if key in self.cache:
+            return self.cache[key]
+        t, term, d = self.enc1(e)
+        if len(term) > 40:
+            name = 'x%d' % len(self.defs)
+            self.defs.append('(define-fun %s () (_ BitVec %d) %s)' % (name, TY[t][1], term))
+            term = name
+        if len(d) > 40:
+            name = 'x%d' % len(self.defs)
+            self.defs.append('(define-fun %s () Bool %s)' % (name, d))
+            d = name
+        self.cache[key] = (t, term, d)
+        self.keep.append(e)
+        return t, term, d
+
+    def enc1(self, e):
         k = e[0]
         if k == 'EVar':
             n, t = e[1], e[2]
@@ -171,6 +191,7 @@ def query(enc, goal_false):
     text = '(set-logic QF_BV)\n(set-option :produce-models true)\n'
     for n in sorted(enc.vars):
         text += '(declare-const p%d (_ BitVec 64))\n' % n
+    text += '\n'.join(enc.defs) + '\n'
     text += '(assert %s)\n(check-sat)\n(get-model)\n' % goal_false
     return run_solver(text)
 
